@@ -560,6 +560,7 @@ def reduced_alphabet():
         custom(7, [('x_sum', 'summary')]),
         custom(8, [('x', 'counter'), ('x_total', 'gauge')]),     # claims x_total twice (former F6)
         custom(9, [('x', 'counter')], describe=None, samples='first'),      # undescribed, emits x_total but no x_created
+        custom(10, [('x', 'counter')], describe=[]),     # opts out: describe() returns [] — claims NOTHING, auto_describe or not
     ]
     ops = []
     for c in cs:
@@ -598,8 +599,10 @@ def random_collector(rng, cid, allow_dup=False):
             c = custom(cid, fams, samples=modes)
         elif r < 0.85:      # no describe(): under auto_describe the claims come from the TYPES of the collected families,
             c = custom(cid, fams, describe=None, samples=modes)      # whatever samples they happen to carry
-        else:   # describe() disagrees with collect()
+        elif r < 0.93:   # describe() disagrees with collect()
             c = custom(cid, fams, describe=[(rng.choice(ALPHABET), rng.choice(TYPES))], samples=modes)
+        else:   # describe() returns no family at all: the collector claims nothing, whatever collect() yields
+            c = custom(cid, fams, describe=[], samples=modes)
         cl = claims_of(c['describe'] if c['describe'] is not None else fams)
         if len(set(cl)) == len(cl) or allow_dup or rng.random() < 0.5:
             return c
@@ -638,6 +641,14 @@ def random_case(rng, length):
 
 
 CORPUS = [
+    # describe() -> []: the collector opts out of the duplicate protection; it neither blocks nor is blocked, in either order,
+    # with auto_describe on and off, although its collect() yields names other collectors claim
+    {'ad': True, 'ti': None, 'collectors': [custom(1, [('x', 'counter')], describe=[]), custom(2, [('x', 'counter')]),
+                                            custom(3, [('x_total', 'gauge')], describe=[]), custom(4, [('x', 'gauge')], describe=None)],
+     'ops': [['r', 1], ['r', 2], ['r', 3], ['r', 4], ['u', 2], ['u', 1], ['r', 4], ['r', 1], ['r', 2], ['u', 3], ['u', 1]]},
+    {'ad': False, 'ti': {'a': 'b'}, 'collectors': [custom(1, [('x', 'counter')]), custom(2, [('x', 'counter')], describe=[]),
+                                                   custom(3, [('target', 'info')], describe=[])],
+     'ops': [['r', 1], ['r', 2], ['r', 3], ['u', 1], ['r', 1], ['u', 2], ['u', 3]]},
     # a collector whose families change while it is registered (one family per attached device): unregister releases what
     # the REGISTRATION claimed, so the dropped name is free again and a collector claiming it registers
     {'ad': True, 'ti': None, 'collectors': [varying(1, [[('x', 'gauge'), ('x_total', 'gauge')], [('x', 'gauge')]], describe=False),
@@ -747,7 +758,7 @@ def sigs_of(case, ops):
 
 def run(ctx):
     ctx.rule = ('histories of register/unregister/set_target_info: corpus (F6 witness, interleaved failed register/unregister/'
-                'target info, built-in classes); every history of length 3 over 9 clash-rich collectors (x counter, x_total '
+                'target info, built-in classes); every history of length 3 over 10 clash-rich collectors (x counter, x_total '
                 'gauge, x_created gauge w/o describe, target info, target_info gauge, x histogram w/o describe, x_sum summary, '
                 'the F6 collector) x {register, unregister} + set_target_info(None/{}/labels), auto_describe off and on; every '
                 'history of length 3 over {x counter, x_created gauge, built-in Histogram x, built-in Gauge x_created, undescribed '
